@@ -474,6 +474,25 @@ def run(shard, rec, rng):
         ("charset", DS.CharsetAccept, CH, ["utf-8", "latin1", "ascii", "utf-16"], l_spec, c_match),
         ("coding", DS.Accept, ENC, ["gzip", "br", "identity", "deflate"], l_spec, e_match),
     ]
+    # a request without the header (or with an empty one): nothing is acceptable, the default is returned, every
+    # quality is 0 - for every family, and for an Accept object built from another one
+    for fam, cls, pool, offpool, spec, match in fams:
+        for offers in ([offpool[0]], list(offpool)):
+            with rec.guard({"family": fam, "header": "", "offers": offers}, "C17"):
+                check_generic(rec, http, cls, fam, [], offers, spec, match)
+                rec.observe("empty_headers")
+                for hdr0 in (None, "", " "):
+                    a0 = http.parse_accept_header(hdr0, cls)
+                    blank = hdr0 is not None and hdr0.strip() == "" and hdr0 != ""  # blanks only: an (unmatchable) empty item may be listed
+                    if a0.best_match(offers) is not None or a0.best_match(offers, default="dflt") != "dflt" or (not blank and (list(a0) or a0.provided)):
+                        rec.violation(f"C17/{fam}:absent-header-chooses", f"parse_accept_header({hdr0!r}).best_match({offers!r}) = {a0.best_match(offers)!r}, items {list(a0)!r}, provided {a0.provided}",
+                                      {"family": fam, "header": hdr0, "offers": offers}, monitor="evaluator")
+                src = http.parse_accept_header(header_of([(pool[0], "0.5"), (pool[1], None)]), cls)
+                cp = cls(src)
+                if list(cp) != list(src) or cp.provided != src.provided or cp.best_match(offers) != src.best_match(offers):
+                    rec.violation(f"C17/{fam}:copy-negotiates-differently", f"{list(src)!r} copied to {list(cp)!r}", {"family": fam, "offers": offers}, monitor="evaluator")
+    with rec.guard({"family": "language", "header": "", "offers": OFF_L[:2]}, "C17"):
+        check_lang(rec, http, DS, [], OFF_L[:2])
     for _ in range(cfg["multisets"]):
         n = rng.choice((1, 2, 2, 3, 3, 4))
         for fam, cls, pool, offpool, spec, match in fams:
